@@ -449,7 +449,8 @@ void run_copies(RunCtx& cx) {
     }
     CDNS::CdnsBlock* S = rsrc ? rsrc.get() : src.get();
     std::string want;
-    if (S) want = block_content(*S, sets, "want", cx);
+    bool want_full = false;   // (max_block_items is 10000 here)
+    if (S) { want = block_content(*S, sets, "want", cx); want_full = S->full(); }
     else {
         // how == 7: ground truth from a second, untouched reading of the same file
         std::istringstream is2(file_bytes);
@@ -475,15 +476,48 @@ void run_copies(RunCtx& cx) {
             if (i % 4 == 0) b.add_malformed_message(g.mm(tps));
         }
     };
+    // The target of an assignment may have been built / read under OTHER block parameters that carry the same index (index 0 of
+    // another file's preamble — a block variable reused across inputs): other tick rate, block size and hints.
+    bool other_params = r.coin();
+    CDNS::BlockParameters other = sets[0];
+    {
+        uint64_t t = other.storage_parameters.ticks_per_second;
+        other.storage_parameters.ticks_per_second = t == 1000 ? 1000000 : 1000;
+        other.storage_parameters.max_block_items = 1 + r.below(3);
+        other.storage_parameters.storage_hints.query_response_hints = 0x5;
+        other.storage_parameters.storage_hints.rr_hints = 0;
+    }
+    CDNS::BlockParameters& target_params = other_params ? other : sets[0];
+    if (other_params && (how == 2 || how == 3 || how == 6)) { cx.tag("target-built-under-other-parameters"); cx.ctr->add("probe.assignment_onto_block_with_other_parameters"); }
+    // a CdnsBlockRead that was read from another file (preamble = {other}) and is now reused
+    auto read_target = [&]() -> CDNS::CdnsBlockRead* {
+        if (!other_params) return new CDNS::CdnsBlockRead();
+        std::vector<CDNS::BlockParameters> osets{other};
+        CDNS::CdnsBlock tmp(other, 0);
+        gen::RecGen g(sw, mix_str(cx.seed, "other-file"));
+        tmp.add_question_response_record(g.qr(other.storage_parameters.ticks_per_second));
+        if (tmp.get_item_count() == 0) return new CDNS::CdnsBlockRead();
+        {
+            CDNS::FilePreamble fp(osets);
+            CDNS::CdnsExporter ex(fp, std::string("/sim/c19-other"), CDNS::CborOutputCompression::NO_COMPRESSION);
+            ex.write_block(tmp);
+        }
+        std::string ob = F.get("/sim/c19-other");
+        F.dir.erase("/sim/c19-other");
+        std::istringstream ois(ob);
+        CDNS::CdnsReader ord(ois);
+        bool oeof = false;
+        return new CDNS::CdnsBlockRead(ord.read_block(oeof));
+    };
     // ---- make the second block ------------------------------------------------------------------------------
     switch (how) {
         case 0: cpy.reset(new CDNS::CdnsBlock(*S)); break;
         case 1: { std::string before = want; cpy.reset(new CDNS::CdnsBlock(std::move(*S))); break; }
-        case 2: cpy.reset(new CDNS::CdnsBlock(sets[0], 0)); prefill(*cpy); *cpy = *S; break;
-        case 3: cpy.reset(new CDNS::CdnsBlock(sets[0], 0)); prefill(*cpy); *cpy = std::move(*S); break;
+        case 2: cpy.reset(new CDNS::CdnsBlock(target_params, 0)); prefill(*cpy); *cpy = *S; break;
+        case 3: cpy.reset(new CDNS::CdnsBlock(target_params, 0)); prefill(*cpy); *cpy = std::move(*S); break;
         case 4: rcpy.reset(new CDNS::CdnsBlockRead(*rsrc)); break;
         case 5: rcpy.reset(new CDNS::CdnsBlockRead(std::move(*rsrc))); break;
-        case 6: rcpy.reset(new CDNS::CdnsBlockRead()); prefill(*rcpy); *rcpy = *rsrc; break;
+        case 6: rcpy.reset(read_target()); prefill(*rcpy); *rcpy = *rsrc; break;
         default: break;
     }
     CDNS::CdnsBlock* C = rcpy ? static_cast<CDNS::CdnsBlock*>(rcpy.get()) : cpy.get();
@@ -507,6 +541,8 @@ void run_copies(RunCtx& cx) {
     // ---- operations on the copy (ops of the plan) --------------------------------------------------------------
     std::string got = block_content(*C, sets, "got", cx);
     if (got != want) cx.violation("C19", std::string("C19/I28/copy-content-differs/") + HOW[how], std::string("block obtained by ") + HOW[how] + " serialises differently from its source (source then " + FATE[fate] + ")");
+    if (C->full() != want_full)
+        cx.violation("C19", std::string("C19/I28/copy-behaves-differently/full/") + HOW[how], std::string("full() of the block obtained by ") + HOW[how] + " is " + (C->full() ? "true" : "false") + ", of its source " + (want_full ? "true" : "false"));
     // a freshly built twin for comparing behaviour
     CDNS::CdnsBlock twin(sets[0], 0);
     bool have_twin = !from_reader;
@@ -617,10 +653,103 @@ void run_copies(RunCtx& cx) {
     F.log = nullptr;
 }
 
+// ---------------------------------------------------------------------------------------------------------------
+// C04 on copied blocks: the parameters in force for a copy are those of its source. A block built under restricted hints
+// is copied / moved / assigned (also onto a block built under other hints, also by std::vector growth), the copy is
+// filled further and written with write_block(block); nothing the hints exclude may be in the file.
+void run_copied_hints(RunCtx& cx) {
+    Rng r(mix_str(cx.seed, "copied-hints"));
+    gen::Swarm sw = gen::swarm(cx.seed, gen::P_HINTS);
+    for (auto& bp : sw.sets) bp.storage_parameters.max_block_items = 10000;
+    std::vector<CDNS::BlockParameters> sets = sw.sets;
+    sets.resize(1);
+    simfs::FS& F = simfs::fs();
+    F.reset();
+    F.log = &cx.log;
+    uint64_t tps = sets[0].storage_parameters.ticks_per_second;
+    static const char* HOW[] = {"copy-ctor", "move-ctor", "copy-assign", "move-assign", "vector-growth"};
+    unsigned how = (unsigned)r.below(5);
+    unsigned n_before = (unsigned)r.range(0, 6), n_after = (unsigned)r.range(1, 8);
+    cx.n_ops = n_before + n_after;
+    cx.tag(HOW[how]);
+    if (n_before == 0) cx.tag("empty-source");
+    auto add = [&](CDNS::CdnsBlock& b, uint64_t seed) {
+        gen::RecGen g(sw, seed);
+        switch (seed % 4) {
+            case 0: case 1: b.add_question_response_record(g.qr(tps)); break;
+            case 2: b.add_address_event_count(g.aec()); break;
+            default: b.add_malformed_message(g.mm(tps)); break;
+        }
+    };
+    CDNS::BlockParameters allon = sets[0];
+    allon.storage_parameters.storage_hints = CDNS::StorageHints();
+    std::vector<uint64_t> seeds;
+    for (unsigned i = 0; i < n_before + n_after; i++) seeds.push_back(r.next());
+    std::unique_ptr<CDNS::CdnsBlock> src(new CDNS::CdnsBlock(sets[0], 0));
+    for (unsigned i = 0; i < n_before; i++) if (cx.kept(i)) add(*src, seeds[i]);
+    std::unique_ptr<CDNS::CdnsBlock> cpy;
+    std::vector<CDNS::CdnsBlock> vec;
+    CDNS::CdnsBlock* C = nullptr;
+    switch (how) {
+        case 0: cpy.reset(new CDNS::CdnsBlock(*src)); break;
+        case 1: cpy.reset(new CDNS::CdnsBlock(std::move(*src))); break;
+        case 2: cpy.reset(new CDNS::CdnsBlock(allon, 0)); { gen::RecGen g(sw, r.next()); cpy->add_question_response_record(g.qr(tps)); } *cpy = *src; break;
+        case 3: cpy.reset(new CDNS::CdnsBlock(allon, 0)); *cpy = std::move(*src); break;
+        default:
+            vec.reserve(1);
+            vec.emplace_back(*src);
+            for (int k = 0; k < 3; k++) vec.emplace_back(allon, 0);   // reallocation relocates element 0
+            break;
+    }
+    C = how == 4 ? &vec[0] : cpy.get();
+    if (r.coin()) src.reset();
+    for (unsigned i = 0; i < n_after; i++) if (cx.kept(n_before + i)) add(*C, seeds[n_before + i]);
+    cx.log.ev(std::string("COPIED-HINTS ") + HOW[how] + " items " + std::to_string(C->get_item_count()));
+    if (cx.describe) cx.description = std::string("block with ") + std::to_string(n_before) + " records built under hints " + std::to_string(sets[0].storage_parameters.storage_hints.query_response_hints) + "/" +
+                                      std::to_string(sets[0].storage_parameters.storage_hints.query_response_signature_hints) + "/" + std::to_string((unsigned)sets[0].storage_parameters.storage_hints.rr_hints) + "/" +
+                                      std::to_string((unsigned)sets[0].storage_parameters.storage_hints.other_data_hints) + ", second block by " + HOW[how] + ", " + std::to_string(n_after) + " more records added to it, written with write_block(block)";
+    if (C->get_item_count() > 0) {
+        {
+            CDNS::FilePreamble fp(sets);
+            CDNS::CdnsExporter ex(fp, std::string("/sim/c04-copy"), CDNS::CborOutputCompression::NO_COMPRESSION);
+            ex.write_block(*C);
+        }
+        std::string bytes = F.exists("/sim/c04-copy") ? F.get("/sim/c04-copy") : std::string();
+        try {
+            ref::RFile rf = ref::Interp::file(bytes);
+            model::Hints h = model::Hints::of(sets[0]);
+            for (auto& b : rf.blocks) {
+                for (auto& mem : b.members) {
+                    bool ok = true;
+                    if (mem.compare(0, 3, "qr.") == 0 && mem != "qr.rq") ok = (h.qr >> std::stoi(mem.substr(3))) & 1;
+                    else if (mem.compare(0, 4, "sig.") == 0) ok = ((h.sig >> std::stoi(mem.substr(4))) & 1) && ((h.qr >> 4) & 1);
+                    else if (mem.compare(0, 3, "rr.") == 0) ok = (h.rr >> std::stoi(mem.substr(3))) & 1;
+                    if (!ok) cx.violation("C04", std::string("C04/I04/member-despite-cleared-hint/copied-block/") + HOW[how], "member " + mem + " present in a block obtained by " + HOW[how] + " from one built under hints " +
+                                                                                                                                std::to_string(h.qr) + "/" + std::to_string(h.sig) + "/" + std::to_string(h.rr));
+                }
+                if (b.has_aec_array && !(h.other & 2)) cx.violation("C04", std::string("C04/I04/aec-despite-cleared-hint/copied-block/") + HOW[how], "address events stored in a copied block whose hints exclude them");
+                if (b.has_mm_array && !(h.other & 1)) cx.violation("C04", std::string("C04/I04/mm-despite-cleared-hint/copied-block/") + HOW[how], "malformed messages stored in a copied block whose hints exclude them");
+                for (auto& d : b.unreachable) cx.violation("C04", std::string("C04/I05/unreachable-table-entry/copied-block/") + HOW[how], d);
+            }
+            cx.ctr->add("copied_blocks_checked");
+            cx.nontrivial = true;
+        } catch (std::exception& e) {
+            cx.violation("C02", "C02/I02/copied-block-serialises-invalid", e.what());
+        }
+    }
+    cpy.reset();
+    vec.clear();
+    src.reset();
+    cx.state_key = std::string("copied-hints/") + HOW[how] + ",";
+    F.reset();
+    F.log = nullptr;
+}
+
 }  // namespace
 
 void sim::engine_objects(RunCtx& cx) {
     if (cx.prop == "C17") run_timestamps(cx);
     else if (cx.prop == "C11") run_tables(cx);
+    else if (cx.prop == "C04") run_copied_hints(cx);
     else run_copies(cx);
 }
